@@ -82,6 +82,19 @@ static void cross_thread_case(uint64_t seed, uint64_t maxv)
 	rep_case_done(1, 0, 1);
 }
 
+/* a refused seed leaves the generator exactly where it was, also in the middle of a stream */
+static void refusal_midstream_case(uint64_t seed, int ndraws, uint64_t badseed, uint64_t maxv)
+{
+	if (!rep_case("refused seed %llu after %d draws from seed %llu", (unsigned long long)badseed, ndraws, (unsigned long long)seed)) return;
+	uint64_t s = seed; int bad = 0;
+	of_rfc5170_srand(seed);
+	for (int i = 0; i < ndraws && !bad; i++) { s = pm_next(s); if (of_rfc5170_rand(maxv) != oracle_ret(s, maxv)) { bad = 1; rep_viol("prng-state", "draw %d after seed %llu", i, (unsigned long long)seed); } }
+	of_rfc5170_srand(badseed);
+	for (int i = 0; i < 8 && !bad; i++) { s = pm_next(s); uint64_t v = of_rfc5170_rand(maxv); if (v != oracle_ret(s, maxv)) { bad = 1; rep_viol("prng-seed-accept", "out-of-range seed %llu given after %d draws changed the stream: draw %d is %llu, the stream gives %llu", (unsigned long long)badseed, ndraws, i, (unsigned long long)v, (unsigned long long)oracle_ret(s, maxv)); } }
+	rep_count("refused_seeds_in_mid_stream", 1);
+	rep_case_done(1, 0, 1);
+}
+
 int p_c19(void)
 {
 	long unit = 0;
@@ -223,6 +236,8 @@ int p_c19(void)
 	if (rep_unit_mine(unit)) {
 		rng_t r = rng_make(g_run.seed, 1990, 0);
 		static const uint64_t mv[] = { 2, 255, 65536, 12750000, 2147483647ULL };
+		static const uint64_t badseeds[] = { 0, 2147483647ULL, 2147483648ULL, 4294967296ULL + 5, 18446744073709551615ULL };
+		for (int i = 0; i < (g_run.thorough ? 400 : 40); i++) refusal_midstream_case(i == 0 ? 1 : 1 + rng_below(&r, 2147483646u), i == 0 ? 9999 : 1 + (int)rng_below(&r, 50), badseeds[i % 5], mv[i % 5]);
 		for (int i = 0; i < (g_run.thorough ? 200 : 20); i++) cross_thread_case(i == 0 ? 1 : i == 1 ? 2147483646ULL : 1 + rng_below(&r, 2147483646u), mv[i % 5]);
 	}
 	unit++;
